@@ -2,6 +2,7 @@
 #include "common.hpp"
 
 #include <csignal>
+#include <ctime>
 #include <fstream>
 #include <unistd.h>
 #include <unordered_set>
@@ -279,8 +280,26 @@ void rc_campaign_json(const std::string & inst, int cases, int max_size, rc::Gen
     md.id = inst;
     md.description = inst;
     std::optional<std::pair<json, std::string>> last_fail;
+    // Shrinking budget: after the first failure at most 400 further executions (and 120 s) are spent on
+    // shrinking; beyond that every candidate is declared passing without being run, which ends rapidcheck's
+    // search. This bounds the time spent on very large cases; it affects minimality only, never the verdict.
+    unsigned shrink_runs = 0;
+    const time_t shrink_deadline_unset = 0;
+    time_t shrink_deadline = shrink_deadline_unset;
     auto res = rc::detail::checkTestable(
         [&] {
+            if (stats().shrinking && last_fail) {
+                if (shrink_deadline == shrink_deadline_unset) {
+                    shrink_deadline = time(nullptr) + 120;
+                }
+                if (++shrink_runs > 400 || time(nullptr) > shrink_deadline) {
+                    // budget used up: report the smallest failing case found so far (generation of a
+                    // candidate alone can be expensive for very large cases, so the search is cut here)
+                    last_fail->first["shrinking"] = "stopped after the shrinking budget (400 candidates / 120 s)";
+                    last_fail->first["rc_seed"] = params.seed;
+                    fail_exit(last_fail->first, last_fail->second);
+                }
+            }
             json c = *gen;
             c["inst"] = inst;
             CaseScope sc([&] { return c; });
